@@ -268,3 +268,57 @@ func VerifC06Retry() {
 	verifObserve("retry", n, max, polls)
 	verifReach("done")
 }
+
+func init() {
+	verifHarnesses["VerifC06BigInv"] = VerifC06BigInv
+}
+
+// VerifC06BigInv: one inventory announcing more transactions than fit into one getdata message:
+// every announced transaction is requested from the announcing peer exactly once, in getdata
+// messages that are what was queued when they are finally written.
+func VerifC06BigInv() {
+	e := newNetEnv(true)
+	e.makeReady()
+	n := wire.MaxInvPerMsg + verifParam("extra", 3)
+	payload := make([]byte, 0, 9+36*n)
+	payload = append(payload, 0xfd, byte(n), byte(n>>8)) // canonical varint for 50001..65535
+	for i := 0; i < n; i++ {
+		var entry [36]byte
+		entry[0] = byte(wire.InvTypeTx)
+		entry[4], entry[5], entry[6], entry[7] = byte(i), byte(i>>8), byte(i>>16), 0x77
+		payload = append(payload, entry[:]...)
+	}
+	e.conn.in = frameMsg(wire.CmdInv, payload, false)
+	err := e.node.handleMessage(e.ctx, e.conn)
+	verifAssert(err == nil, "big-inventory-fails")
+	// the send thread writes the queued messages after the handler has returned
+	seen := make(map[bitcoin.Hash32]int, n)
+	msgs := 0
+	for _, m := range e.drainOutgoing() {
+		gd, ok := m.(*wire.MsgGetData)
+		if !ok {
+			continue
+		}
+		msgs++
+		verifAssert(len(gd.InvList) <= wire.MaxInvPerMsg, "getdata-larger-than-the-protocol-allows")
+		for _, iv := range gd.InvList {
+			seen[iv.Hash]++
+		}
+	}
+	verifObserve("big-inv", n, msgs, len(seen))
+	missing, twice := 0, 0
+	for i := 0; i < n; i++ {
+		var h bitcoin.Hash32
+		h[0], h[1], h[2], h[3] = byte(i), byte(i>>8), byte(i>>16), 0x77
+		switch seen[h] {
+		case 0:
+			missing++
+		case 1:
+		default:
+			twice++
+		}
+	}
+	verifAssert(missing == 0, "announced-transaction-never-requested")
+	verifAssert(twice == 0, "transaction-requested-twice-from-one-peer")
+	verifReach("done")
+}
